@@ -31,8 +31,15 @@ func genC17(rng *Rng, sc *STScript) *STScript {
 	for i := 0; i < rng.Range(1, 3); i++ {
 		n := rng.Range(1, 5)
 		var sh []string
+		base := 0
+		if rng.Pct(35) {
+			base = 8 // dml_8, dml_9, dml_10, ...: shard order is not the lexicographic order of the names
+		}
 		for k := 0; k < n; k++ {
-			sh = append(sh, fmt.Sprintf("dml_%d_%dv%d", k, 400+i, k))
+			sh = append(sh, fmt.Sprintf("dml_%d_%dv%d", base+k, 400+i, k))
+		}
+		if rng.Pct(25) {
+			Shuffle(rng, sh) // the target list in any order
 		}
 		kind := Pick(rng, []string{"coll", "part"})
 		id := fmt.Sprintf("drop-collection-%d", 400+i)
